@@ -16,7 +16,12 @@ Ln(kk, key, dk, fs, ind) == [k |-> kk, key |-> key, dk |-> dk, fs |-> fs, ind |-
 Menu == {Ln("line", "r1", "", <<>>, 0), Ln("line", "r2", "", <<>>, 0), Ln("blank", "", "", <<>>, 0), Ln("close", "}", "", <<>>, 0)}
    \cup {Ln("inl", "g1", dk, fs, 1) : dk \in {"only", "exclude"}, fs \in FilterSets}
    \cup {Ln("open", "", dk, fs, ind) : dk \in {"only", "exclude"}, fs \in {<<"arch">>, <<"apt">>, <<"abi3">>}, ind \in {1, 2}}
-Files == UNION {[1..n -> Menu] : n \in 1..MaxLen}
+\* guarded paragraphs that hold an inline-guarded rule above their last line (whatever MaxLen is)
+Nested == {<<o, i, Ln("line", "r1", "", <<>>, 0), Ln("blank", "", "", <<>>, 0)>> :
+              o \in {m \in Menu : m.k = "open" /\ m.ind = 1}, i \in {m \in Menu : m.k = "inl"}}
+     \cup {<<o, Ln("line", "r2", "", <<>>, 0), i, Ln("line", "r1", "", <<>>, 0), Ln("blank", "", "", <<>>, 0)>> :
+              o \in {m \in Menu : m.k = "open" /\ m.ind = 1}, i \in {m \in Menu : m.k = "inl"}}
+Files == UNION {[1..n -> Menu] : n \in 1..MaxLen} \cup Nested
 MCCfgs == [dist : {"arch", "debian", "opensuse"}, abi : {3, 4}, ver : {"3.0", "4.0", "4.1"}, mode : {"none"}, full : {FALSE}]
 
 Init == src \in Files /\ cfg \in MCCfgs /\ text = src /\ k = 1
@@ -31,6 +36,6 @@ Lead(name, ok) == ok \/ PrintT("LEAD " \o name \o " " \o ToJson([cfg |-> cfg, sr
 Leads == Done /\ FileInContract(src) => Lead("C03", FileOK(src, text, cfg))
 \* every file is printed once (under the first configuration) for replay
 EmitLen == IF "VERIF_FILTER_EMITLEN" \in DOMAIN IOEnv THEN atoi(IOEnv.VERIF_FILTER_EMITLEN) ELSE 3
-Emit == (k = 1 /\ Len(src) <= EmitLen /\ cfg = [dist |-> "arch", abi |-> 3, ver |-> "3.0", mode |-> "none", full |-> FALSE] /\ Dirs(src) # <<>>)
+Emit == (k = 1 /\ (Len(src) <= EmitLen \/ src \in Nested) /\ cfg = [dist |-> "arch", abi |-> 3, ver |-> "3.0", mode |-> "none", full |-> FALSE] /\ Dirs(src) # <<>>)
            => PrintT("BEH " \o ToJson([src |-> src, contract |-> FileInContract(src)]))
 ==============================================================================
